@@ -52,6 +52,21 @@ Theorem cf_preserves_value fuel (N D : poly) qs x : cf_coeffs fuel N D = Some qs
   peval D x <> 0 -> peval (snd (cf_rat qs)) x <> 0 -> cf_val qs x = peval N x / peval D x.
 Proof. apply cf_value. Qed.
 
+(* as_continued_fraction_inverse (trailing-term expansion) *)
+Theorem cf_inverse_preserves fuel (N D : poly) qs : cfi_run fuel N D = Some qs -> req (cf_rat qs) (N, D).
+Proof. apply cfi_sound. Qed.
+Theorem cf_inverse_preserves_value fuel (N D : poly) qs x : cfi_run fuel N D = Some qs -> cf_ok K qs x ->
+  peval D x <> 0 -> peval (snd (cf_rat qs)) x <> 0 -> cf_val qs x = peval N x / peval D x.
+Proof. apply cfi_value. Qed.
+
+(* poles / zeros that are not in the coefficient field (reported as algebraic numbers):
+   with the minimal polynomials m_i of the reported numbers and the checked identity
+   A = lc(A) * prod m_i^{n_i}, every root of an m_i is a root of A and m_i^{n_i} divides A *)
+Theorem irrational_roots_are_roots (A : poly) (l : list (poly * nat)) m n r :
+  minpoly_cert A l = true -> In (m, S n) l -> peval m r = 0 ->
+  peval A r = 0 /\ pdivides (ppow m (S n)) A.
+Proof. intros H Hin Hr. split; [apply (minpoly_cert_root K A l m n r H Hin Hr) | apply (minpoly_cert_divides K A l m (S n) H Hin)]. Qed.
+
 (* multiply_top_and_bottom / divide_top_and_bottom / N over D *)
 Theorem top_bottom_preserves (n dn f : K) : dn <> 0 -> f <> 0 -> fmt_scale_top_bottom n dn f = n / dn.
 Proof. apply fmt_scale_top_bottom_sound. Qed.
@@ -92,6 +107,9 @@ Print Assumptions residues_reconstruct.
 Print Assumptions cancel_preserves.
 Print Assumptions cf_preserves.
 Print Assumptions cf_preserves_value.
+Print Assumptions irrational_roots_are_roots.
+Print Assumptions cf_inverse_preserves.
+Print Assumptions cf_inverse_preserves_value.
 Print Assumptions top_bottom_preserves.
 Print Assumptions rationalize_preserves.
 Print Assumptions E3_zero.
